@@ -294,7 +294,7 @@ func (g *rgen) query(budget int, sc gscope) string {
 	q := func(b int) string { return g.query(b, sc) }
 	switch g.r.Intn(64) {
 	case 0, 1, 2, 3:
-		return q(h) + " | " + q(budget-h)
+		return "(" + q(h) + " | " + q(budget-h) + ")"
 	case 4, 5, 6:
 		return "(" + q(h) + ", " + q(budget-h) + ")"
 	case 7, 8, 9:
@@ -312,7 +312,7 @@ func (g *rgen) query(budget int, sc gscope) string {
 	case 18:
 		return "{(" + q(h) + "): " + q(budget-h) + "}"
 	case 19:
-		return g.pick("{a}", "{a, b}", `{"a", c: 1}`, `{"x\(.a)": 1}`, "{$__missing}", "{a: 1, a: 2}")
+		return g.pick("{a}", "{a, b}", `{"a", c: 1}`, `{"x\(.a)": 1}`, "{a: 1, a: 2}")
 	case 20, 21:
 		t := budget / 3
 		s := "if " + q(t) + " then " + q(t)
@@ -324,9 +324,9 @@ func (g *rgen) query(budget int, sc gscope) string {
 		}
 		return s + " end"
 	case 22, 23:
-		return "try " + g.term(budget-1, sc)
+		return "(try " + g.term(budget-1, sc) + ")"
 	case 24, 25:
-		return "try " + g.term(h, sc) + " catch " + g.term(budget-h, sc)
+		return "(try " + g.term(h, sc) + " catch " + g.term(budget-h, sc) + ")"
 	case 26, 27:
 		return "(" + q(budget-1) + ")?"
 	case 28, 29, 30:
@@ -343,57 +343,53 @@ func (g *rgen) query(budget int, sc gscope) string {
 		return s + ")"
 	case 34, 35, 36:
 		p, vs := g.pattern(sc)
-		return g.term(h, sc) + " as " + p + " | " + g.query(budget-h, sc.withVar(vs...))
+		return "(" + g.term(h, sc) + " as " + p + " | " + g.query(budget-h, sc.withVar(vs...)) + ")"
 	case 37, 38, 39:
 		// destructuring alternatives
 		p1, v1 := g.pattern(sc)
 		p2, v2 := g.pattern(sc)
 		vs := append(append([]string{}, v1...), v2...)
-		s := g.term(h, sc) + " as " + p1 + " ?// " + p2
+		s := "(" + g.term(h, sc) + " as " + p1 + " ?// " + p2
 		if g.r.Chance(1, 4) {
 			p3, v3 := g.pattern(sc)
 			s += " ?// " + p3
 			vs = append(vs, v3...)
 		}
-		return s + " | " + g.query(budget-h, sc.withVar(vs...))
+		return s + " | " + g.query(budget-h, sc.withVar(vs...)) + ")"
 	case 40, 41:
 		l := g.pick("$f", "$g")
-		return "label " + l + " | " + g.query(budget-1, sc.withLabel(l))
+		return "(label " + l + " | " + g.query(budget-1, sc.withLabel(l)) + ")"
 	case 42, 43:
 		// function with no parameters, possibly recursive on a countdown
 		body := g.query(h, sc.withFunc(fnInfo{name: "f"}))
 		if g.r.Chance(1, 4) {
 			body = "if . < 3 then (. + 1 | f), " + g.query(h/2, sc) + " else " + g.query(h/2, sc) + " end"
 		}
-		return "def f: " + body + "; " + g.query(budget-h, sc.withFunc(fnInfo{name: "f"}))
+		return "(def f: " + body + "; " + g.query(budget-h, sc.withFunc(fnInfo{name: "f"})) + ")"
 	case 44, 45, 46:
 		// filter parameter: closure captures the caller's variables
 		inner := sc.withClos("g")
 		if g.r.Chance(1, 2) {
 			inner = inner.withVar("$x") // shadowing inside the callee
-			return "def h(g): " + g.pick("1", ".", "[.]", ".a") + " as $x | " + g.query(h, inner) + "; h(" + g.query(budget-h, sc) + ")"
+			return "(def h(g): " + g.pick("1", ".", "[.]", ".a") + " as $x | " + g.query(h, inner) + "; h(" + g.query(budget-h, sc) + "))"
 		}
-		return "def h(g): " + g.query(h, inner) + "; h(" + g.query(budget-h, sc) + ")"
+		return "(def h(g): " + g.query(h, inner) + "; h(" + g.query(budget-h, sc) + "))"
 	case 47, 48:
 		t := budget / 3
 		inner := sc.withVar("$a").withClos("a")
-		return "def k($a): " + g.query(t, inner) + "; k(" + g.query(t, sc) + ")" + g.pick("", " | "+g.leaf(sc))
+		return "(def k($a): " + g.query(t, inner) + "; k(" + g.query(t, sc) + ")" + g.pick("", " | "+g.leaf(sc)) + ")"
 	case 49:
 		t := budget / 4
 		inner := sc.withVar("$a", "$b").withClos("g")
-		return "def m(g; $a; $b): " + g.query(t, inner) + "; m(" + g.query(t, sc) + "; " + g.query(t, sc) + "; " + g.query(t, sc) + ")"
+		return "(def m(g; $a; $b): " + g.query(t, inner) + "; m(" + g.query(t, sc) + "; " + g.query(t, sc) + "; " + g.query(t, sc) + "))"
 	case 50:
-		return g.pick("first", "isempty", "[limit(3; ", "[limit(2; ", "any", "all", "add", "map", "select", "[recurse(", "last", "[.[]? | ") +
-			func() string {
-				x := g.query(budget-1, sc)
-				return "(" + x + ")"
-			}() + ""
+		return fmt.Sprintf(g.pick("first(%s)", "isempty(%s)", "[limit(3; %s)]", "[limit(2; %s)]", "any(%s; .)", "all(%s; .)", "add(%s)", "map(%s)?", "select(%s)", "[limit(4; recurse(%s))]", "last(%s)", "[.[]? | %s]", "[%s] | length", "nth(1; %s)", "[skip(1; %s)]"), q(budget-1))
 	case 51:
-		return "[limit(" + g.pick("0", "1", "2", "3", "-1") + "; " + g.pick("repeat(", "(", "range(", "recurse(") + q(budget-1) + "))]"
+		return fmt.Sprintf(g.pick("[limit(%s; repeat(%s))]", "[limit(%s; (%s))]", "[limit(%s; range(%s))]", "[limit(%s; recurse(%s))]"), g.pick("0", "1", "2", "3", "-1"), q(budget-1))
 	case 52:
 		return "[limit(5; recurse(" + g.pathExpr(h, sc) + "?))]"
 	case 53, 54:
-		return g.pick("path(", "[paths(", "del(", "[path(", "pick(", "[getpath(") + g.pathExpr(budget-1, sc) + ")" + g.pick("", "")
+		return fmt.Sprintf(g.pick("path(%s)", "[paths(%s)]", "del(%s)", "[path(%s)]", "pick(%s)", "[getpath(%s)]?", "[path(%s)] | length", "to_entries? | map(%s)?"), g.pathExpr(budget-1, sc))
 	case 55, 56, 57:
 		return "(" + g.pathExpr(h, sc) + " " + g.pick("=", "|=", "+=", "-=", "*=", "//=", "|=", "=") + " " + q(budget-h) + ")"
 	case 58:
@@ -401,7 +397,8 @@ func (g *rgen) query(budget int, sc gscope) string {
 	case 59:
 		return g.pick("@json", "@text", "@html", "@csv", "@tsv", "@sh", "@base64", "@uri") + ` "v\(` + q(budget-1) + `)"`
 	case 60:
-		return g.pick("map(", "map_values(", "with_entries(", "sort_by(", "group_by(", "min_by(", "unique_by(", "until(. > 2 or (type != \"number\"); ", "[while(type == \"number\" and . < 3; ", "walk(", "to_entries | map(", "[splits(") + q(budget-1) + ")" + g.pick("", "?")
+		return fmt.Sprintf(g.pick("map(%s)?", "map_values(%s)?", "with_entries(%s)?", "sort_by(%s)?", "group_by(%s)?", "min_by(%s)?", "unique_by(%s)?",
+			"until(. > 2 or (type != \"number\"); %s)", "[while(type == \"number\" and . < 3; %s)]", "walk(%s)?", "to_entries? | map(%s)?", "[.[]? | select(%s)]"), q(budget-1))
 	case 61:
 		return "-" + g.term(budget-1, sc)
 	case 62:
@@ -410,7 +407,7 @@ func (g *rgen) query(budget int, sc gscope) string {
 		return g.pick("tostream", "[tostream]", "fromstream(tostream)", "to_entries", "from_entries?", "[.[]?] | sort", "getpath([\"a\",\"b\"])", "setpath([\"a\"]; 1)?", "delpaths([[\"a\"]])?",
 			"has(\"a\")?", "contains(.)?", "inside(.)?", "indices(1)?", "index(\"a\")?", "join(\",\")?", "split(\",\")?", "ltrimstr(\"a\")?", "startswith(\"a\")?", "ascii_upcase?", "implode?",
 			"[.[]?] | group_by(.a?)", "[.[]?] | unique", "flatten(1)?", "tojson", "[.[]?|tostring]", "input?", "[inputs]", "$ENV|length", "halt_error?", "@base64", "@json", "combinations?", "[limit(3; combinations?)]",
-			"splits(\"a\")?", "ascii?", "env|length", "first(range(10;0;-3))", "[range(0;10;3)]", "[range(5;0;-2)]", "nth(1; .[]?)", "[.[]?] | IN(1)", "INDEX(.a?)?", "getpath([0,\"a\"])?", "error(null)?", "try error(null) catch .", "[.[]?] | add", "trim?", "abs?", "toboolean?", "have_literal_numbers?", "[splits(\", \")]?", "ltrimstr(1)", "tojson|fromjson?", "halt", "min_by(.a)?", "bsearch(1)?", "(.. | numbers) |= . + 1", "[.. | scalars]", "[leaf_paths?]", "any(.[]?; . == 1)", "all(.[]?; . != null)", "[.[]?] | map(select(. != null))", "limit(0; error)", "first(empty)", "[first(range(3;10))]", "isempty(error)?", "[limit(3; repeat(1))]", "[.[]? as [$a] ?// $a | $a]", "getpath([\"a\"]) = 3", "to_entries? | map(.key)", "with_entries(.value |= tostring)?", "[paths(type == \"number\")]", "del(.[0], .a)?", "del(.. | select(. == null))?", "pick(.a)?", "pick(.[0])?", "[splits(\"b\")]?", "ascii_downcase?", "@text", "@html", "tojson", "utf8bytelength?", "[match(\"a\")]?", "test(\"a\")?", "ltrimstr(\"x\")", "significand?", "now|type", "infinite", "nan|isnan", "[1,nan]|sort", "[nan,1]|min", "{} | .a.b.c", "[[1,2],[3]] | .[][0]", "\"abc\" | .[1:2]", "[1,2,3] | .[1:] = [9]", ".[2:4]?", "try (1/0) catch .", "1 % 0?", "5 / 2", "7 % 3", "-5 % 3", "[1,2] - [2]", "{a:1} * {a:{b:2}}", "\"ab\" * 2", "\"a,b\" / \",\"", "[] | first", "null | length", "\"\\u00e9\" | length", "[3,1,2] | sort_by(-.)", "{} | keys", "[[2,1],[1,2]] | sort", "[{a:2},{a:1}] | group_by(.a)", "{a:{b:1}} | paths", "[1,[2]] | flatten", "\"x\" | ascii_downcase", "[\"a\",1,null] | join(\"-\")", "\"1\" | tonumber", "1 | tostring", "[1,2] | contains([1])", "{a:1} | has(\"a\")", "[1,2,1] | indices(1)", "\"abcb\" | index(\"b\")", "[1,2,3] | IN(2)", "2 | IN(1,2)", "splits(\"a\")?")
+			"env|length", "first(range(10;0;-3))", "[range(0;10;3)]", "[range(5;0;-2)]", "nth(1; .[]?)", "[.[]?] | IN(1)", "INDEX(.a?)?", "getpath([0,\"a\"])?", "error(null)?", "try error(null) catch .", "[.[]?] | add", "trim?", "abs?", "toboolean?", "ltrimstr(1)", "tojson|fromjson?", "halt", "min_by(.a)?", "bsearch(1)?", "(.. | numbers) |= . + 1", "[.. | scalars]", "any(.[]?; . == 1)", "all(.[]?; . != null)", "[.[]?] | map(select(. != null))", "limit(0; error)", "first(empty)", "[first(range(3;10))]", "isempty(error)?", "[limit(3; repeat(1))]", "[.[]? as [$a] ?// $a | $a]", "getpath([\"a\"]) = 3", "to_entries? | map(.key)", "with_entries(.value |= tostring)?", "[paths(type == \"number\")]", "del(.[0], .a)?", "del(.. | select(. == null))?", "pick(.a)?", "pick(.[0])?", "ascii_downcase?", "@text", "@html", "tojson", "utf8bytelength?", "[match(\"a\")]?", "test(\"a\")?", "ltrimstr(\"x\")", "significand?", "now|type", "infinite", "nan|isnan", "[1,nan]|sort", "[nan,1]|min", "{} | .a.b.c", "[[1,2],[3]] | .[][0]", "\"abc\" | .[1:2]", "[1,2,3] | .[1:] = [9]", ".[2:4]?", "try (1/0) catch .", "1 % 0?", "5 / 2", "7 % 3", "-5 % 3", "[1,2] - [2]", "{a:1} * {a:{b:2}}", "\"ab\" * 2", "\"a,b\" / \",\"", "[] | first", "null | length", "\"\\u00e9\" | length", "[3,1,2] | sort_by(-.)", "{} | keys", "[[2,1],[1,2]] | sort", "[{a:2},{a:1}] | group_by(.a)", "{a:{b:1}} | paths", "[1,[2]] | flatten", "\"x\" | ascii_downcase", "[\"a\",1,null] | join(\"-\")", "\"1\" | tonumber", "1 | tostring", "[1,2] | contains([1])", "{a:1} | has(\"a\")", "[1,2,1] | indices(1)", "\"abcb\" | index(\"b\")", "[1,2,3] | IN(2)", "2 | IN(1,2)")
 	}
 }
 
@@ -551,9 +548,13 @@ func mutate(r *Rng, src string) string {
 }
 
 var bigMulRe = regexp.MustCompile(`[0-9]{6,}|[0-9][eE][+]?[0-9]`)
+var hugeNumRe = regexp.MustCompile(`[0-9]{40,}`)
 
 // dangerous: programs that may allocate gigabytes within the time limit
 func dangerous(src string) bool {
+	if hugeNumRe.MatchString(src) {
+		return true // the extracted model prints decimals in quadratic time
+	}
 	if bigMulRe.MatchString(src) && (strings.Contains(src, "*") || strings.Contains(src, "range") || strings.Contains(src, "limit") || strings.Contains(src, "implode") || strings.Contains(src, "[")) {
 		return true
 	}
@@ -578,6 +579,7 @@ func streamC01(c *Ctx) {
 	quick := c.Tier == "quick"
 	seen := map[string]bool{}
 	nprog := map[string]int{}
+	var noparse []string
 
 	runOn := func(src, kind string, ins []any, inputs []any) {
 		if dangerous(src) {
@@ -587,6 +589,9 @@ func streamC01(c *Ctx) {
 		p, ok := prepare(src)
 		if !ok {
 			c.Count(kind + "-noparse")
+			if kind == "rand" && len(noparse) < 40 {
+				noparse = append(noparse, src)
+			}
 			return
 		}
 		nprog[kind]++
@@ -671,4 +676,5 @@ func streamC01(c *Ctx) {
 		runOn(src, "rand", ins, someInputs)
 	}
 	c.Stats["programs"] = nprog
+	c.Stats["noparse_samples"] = noparse
 }
